@@ -383,6 +383,11 @@ class C12Monitor(Monitor):
                 continue
             big = b > rc * (1 + delta)
             small = b < rc * (1 - delta)
+            if len(model.elements) == 1:
+                # boundaries at/below the stability index carry the composition of the first stable boundary by
+                # documented design (their classes are emptied every step): not part of the claim
+                small = small & (np.arange(len(b)) > int(model.RdrivingForceIndex[p]))
+                R.observe('c12_unstable_boundaries_excluded', int(model.RdrivingForceIndex[p]) + 1)
             bad_big = big & ~(g > 0)
             bad_small = small & ~(g < 0)
             R.check('c12.growth_sign', not (np.any(bad_big) or np.any(bad_small)),
